@@ -23,6 +23,7 @@ From TucModel Require Import Base.Bytes Base.ListX Model.Bounds Spec.Resolve Pro
   Spec.Fields Proofs.ScanSplit Tie.RsScan Tie.Gen_fill_fields Tie.Bridge_fill_fields Tie.Gen_compress_delimiter Tie.Bridge_compress_delimiter
   Proofs.C01More Tie.Gen_trim Tie.Bridge_trim
   Tie.Gen_fb_try_from Tie.Bridge_fb_try_from
+  Proofs.C06 Proofs.PlainMulti Tie.RsCut Tie.Gen_cut_str Tie.Bridge_cut_str
   Model.Utf8 Model.CutLines Proofs.C05 Proofs.C03Full Proofs.C05Full Tie.RsLines Tie.Gen_read_and_cut_lines Tie.Bridge_read_and_cut_lines
   Proofs.C12 Proofs.C16 Tie.Gen_fill_regex Tie.Bridge_fill_regex Tie.Gen_trim_regex Tie.Bridge_trim_regex Tie.Gen_compress_regex Tie.Bridge_compress_regex
   Proofs.Plain Proofs.C16Replace Tie.RsRegex Tie.Gen_maybe_replace Tie.Bridge_maybe_replace
@@ -361,7 +362,60 @@ Proof.
   rewrite replace_matches_is_intercalate. reflexivity.
 Qed.
 
+(** C01 over the translated general path ([cut_str] of src/cut_str.rs, every stage of it): for every
+    non-empty literal delimiter and every combination of -t, -p, -s, -j, -r, format text and fallbacks
+    (no -g here, no -m: the bridge does not cover it yet), the record comes out as the function of its
+    fields that the statement describes, whatever the scratch buffers held *)
+Theorem tie_C01_record_as_a_function_of_its_fields :
+  forall (o : opt) (line0 : bytes) (fields0 : list (Z * Z)) (buf0 : list byte),
+    value_opts o -> o_complement o = false -> Forall item_nz (items (o_bounds o)) ->
+    Z.of_nat (length line0) + Z.of_nat (length (o_delim o)) <= usize_max ->
+    Z.of_nat (length (line2 o (line1 o line0))) + Z.of_nat (length (o_delim o)) <= usize_max ->
+    Z.of_nat (length (line2 o (line1 o line0))) + 2 <= i32_max ->
+    of_rres_cut
+      (Some (let line1 := match o_trim o with Some k => trim_lit k (o_delim o) line0 | None => line0 end in
+             match line1 with
+             | [] => ROk (if o_only_delimited o then [] else [o_eol o])
+             | _ =>
+                 let fs := if o_compress o then squeeze (split (o_delim o) line1) else split (o_delim o) line1 in
+                 if o_only_delimited o && Nat.eqb (length fs) 1 then ROk []
+                 else match effective_bounds o (length fs) with
+                      | None => RErr
+                      | Some bs =>
+                          match spec_items fs (o_fallback o) (o_join o) (rep_of' o) bs with
+                          | Some x => ROk (x ++ [o_eol o])
+                          | None => RErr
+                          end
+                      end
+             end))
+      (gen_cut_str line0 o fields0 buf0 [o_eol o]).
+Proof.
+  intros o line0 fields0 buf0 Hv Hc Hnz H0 H2 Hf.
+  rewrite <- (general_record_value o line0 Hv Hnz).
+  destruct Hv as (Hd & Hre & Hj & Hb & Hg).
+  apply tie_cut_str_literal; try assumption. rewrite Hb. discriminate.
+Qed.
+
+(** C10 over the same: the result does not depend on what the two scratch buffers held *)
+Theorem tie_C10_cut_str_ignores_its_buffers :
+  forall (o : opt) (line0 : bytes) (f1 f2 : list (Z * Z)) (b1 b2 : list byte) (out : bytes),
+    o_regex o = None -> o_complement o = false -> o_json o = false -> o_btype o <> BChars ->
+    Forall item_nz (items (o_bounds o)) ->
+    Z.of_nat (length line0) + Z.of_nat (length (o_delim o)) <= usize_max ->
+    Z.of_nat (length (line2 o (line1 o line0))) + Z.of_nat (length (o_delim o)) <= usize_max ->
+    Z.of_nat (length (line2 o (line1 o line0))) + 2 <= i32_max ->
+    cut_str o line0 = Some (ROk out) ->
+    gen_cut_str line0 o f1 b1 [o_eol o] = gen_cut_str line0 o f2 b2 [o_eol o].
+Proof.
+  intros o line0 f1 f2 b1 b2 out Hre Hc Hj Hb Hnz H0 H2 Hf E.
+  pose proof (tie_cut_str_literal o line0 f1 b1 Hre Hc Hj Hb Hnz H0 H2 Hf) as A.
+  pose proof (tie_cut_str_literal o line0 f2 b2 Hre Hc Hj Hb Hnz H0 H2 Hf) as B.
+  rewrite E in A, B. cbn [of_rres_cut] in A, B. rewrite A, B. reflexivity.
+Qed.
+
 Print Assumptions tie_try_into_range_spec.
+Print Assumptions tie_C01_record_as_a_function_of_its_fields.
+Print Assumptions tie_C10_cut_str_ignores_its_buffers.
 Print Assumptions tie_C16_compress_rewrites_runs.
 Print Assumptions tie_C05_whichever_algorithm.
 Print Assumptions tie_C16_fields_are_the_gaps.
